@@ -90,7 +90,12 @@ SplineInScope(e) ==
              /\ InRange(BRSub(ks[j + 1][1], ks[j][1])) /\ InRange(BRSub(ks[j + 1][2], ks[j][2]))
              /\ InRange(S!Secant(ks[j], ks[j + 1]))
              /\ InRange(Cube(BRDiv(BRAdd(BRAbs(ks[j][1]), BRAbs(ks[j + 1][1])), BRSub(ks[j + 1][1], ks[j][1]))))
-       /\ \A j \in 2..(Len(ks) - 1) : InRange(BRMul(S!Secant(ks[j - 1], ks[j]), S!Secant(ks[j], ks[j + 1])))
+       \* the sign test of f_dx looks at the *rounded* product of adjacent secant slopes: it sees the right sign as long
+       \* as the product is zero or at least the smallest subnormal; below that the product underflows to zero and the
+       \* knot is treated as flat (an underflow of the construction, excluded like the others)
+       /\ \A j \in 2..(Len(ks) - 1) :
+             LET pr == BRMul(S!Secant(ks[j - 1], ks[j]), S!Secant(ks[j], ks[j + 1])) IN
+             pr = BRZero \/ (BRLe(BRPow2(-1074), BRAbs(pr)) /\ BRLe(BRAbs(pr), Big))
        /\ \A j \in 1..Len(ks) : InRange(Cube(ks[j][1])) /\ InRange(ks[j][2])
 
 HasExtremum(e) ==
